@@ -105,8 +105,9 @@ func labelFileCase(kind string, lines []string, longLine int, longAt int) string
 	}
 	p := filepath.Join(tmpDir(), "labels.txt")
 	text := sb.String()
-	if len(lines)%2 == 0 {
-		// the last line of a file need not end with a line feed: the same definitions
+	if len(lines)%2 == 0 && lines[len(lines)-1] != "" {
+		// the last line of a file need not end with a line feed: the same definitions (an EMPTY last line is only
+		// there because of its line feed, so that one is kept)
 		text = strings.TrimSuffix(text, "\n")
 	}
 	os.WriteFile(p, []byte(text), 0600)
